@@ -23,3 +23,24 @@ package decoder
 //@   only_for C07
 //@   bitprecise
 //@   ensures [C07.zigzag32] mathint(result) == kvUnzigzag(ite(value >= 0, mathint(value), mathint(value) + 4294967296))
+
+// readVarlong (64-bit reader used for the timestamp delta, a Kafka varlong). The first block is always read: it is
+// what decodeRecord's safety proof (C34) needs from the callee; the functional clauses are C07's.
+//@ func readVarlong
+//@   ensures [C07.varlong_consumes] brLen(reader) == old(brLen(reader)) && brPos(reader) >= old(brPos(reader)) && brPos(reader) <= brLen(reader)
+//@   loop 1 invariant brLen(reader) == old(brLen(reader)) && brPos(reader) >= old(brPos(reader)) && brPos(reader) <= brLen(reader) && shift <= 63
+//@   only_for C07
+//@   bitprecise
+//@   ensures [C07.varlong_reads_one_group] err == nil ==> kvGroup(reader, old(brPos(reader)), brPos(reader) - old(brPos(reader))) && brPos(reader) - old(brPos(reader)) <= 10
+//@   ensures [C07.varlong_value_1] err == nil && brPos(reader) - old(brPos(reader)) == 1 && kvPayload(reader, old(brPos(reader)), 1) < 18446744073709551616 ==> mathint(result0) == kvUnzigzag(kvPayload(reader, old(brPos(reader)), 1))
+//@   ensures [C07.varlong_value_2] err == nil && brPos(reader) - old(brPos(reader)) == 2 && kvPayload(reader, old(brPos(reader)), 2) < 18446744073709551616 ==> mathint(result0) == kvUnzigzag(kvPayload(reader, old(brPos(reader)), 2))
+//@   ensures [C07.varlong_value_3] err == nil && brPos(reader) - old(brPos(reader)) == 3 && kvPayload(reader, old(brPos(reader)), 3) < 18446744073709551616 ==> mathint(result0) == kvUnzigzag(kvPayload(reader, old(brPos(reader)), 3))
+//@   ensures [C07.varlong_value_4] err == nil && brPos(reader) - old(brPos(reader)) == 4 && kvPayload(reader, old(brPos(reader)), 4) < 18446744073709551616 ==> mathint(result0) == kvUnzigzag(kvPayload(reader, old(brPos(reader)), 4))
+//@   ensures [C07.varlong_value_5] err == nil && brPos(reader) - old(brPos(reader)) == 5 && kvPayload(reader, old(brPos(reader)), 5) < 18446744073709551616 ==> mathint(result0) == kvUnzigzag(kvPayload(reader, old(brPos(reader)), 5))
+//@   ensures [C07.varlong_value_6] err == nil && brPos(reader) - old(brPos(reader)) == 6 && kvPayload(reader, old(brPos(reader)), 6) < 18446744073709551616 ==> mathint(result0) == kvUnzigzag(kvPayload(reader, old(brPos(reader)), 6))
+//@   ensures [C07.varlong_value_7] err == nil && brPos(reader) - old(brPos(reader)) == 7 && kvPayload(reader, old(brPos(reader)), 7) < 18446744073709551616 ==> mathint(result0) == kvUnzigzag(kvPayload(reader, old(brPos(reader)), 7))
+//@   ensures [C07.varlong_value_8] err == nil && brPos(reader) - old(brPos(reader)) == 8 && kvPayload(reader, old(brPos(reader)), 8) < 18446744073709551616 ==> mathint(result0) == kvUnzigzag(kvPayload(reader, old(brPos(reader)), 8))
+//@   ensures [C07.varlong_value_9] err == nil && brPos(reader) - old(brPos(reader)) == 9 && kvPayload(reader, old(brPos(reader)), 9) < 18446744073709551616 ==> mathint(result0) == kvUnzigzag(kvPayload(reader, old(brPos(reader)), 9))
+//@   ensures [C07.varlong_value_10] err == nil && brPos(reader) - old(brPos(reader)) == 10 && kvPayload(reader, old(brPos(reader)), 10) < 18446744073709551616 ==> mathint(result0) == kvUnzigzag(kvPayload(reader, old(brPos(reader)), 10))
+//@   ensures [C07.varlong_rejects_only_truncated_or_overlong] err != nil ==> (brPos(reader) == brLen(reader) || brPos(reader) - old(brPos(reader)) >= 10) && (forall i int :: old(brPos(reader)) <= i && i < brPos(reader) ==> brAt(reader, i) >= 128)
+//@   loop 1 invariant [C07.varlong_inv] shift == 7 * (brPos(reader) - old(brPos(reader))) && brPos(reader) - old(brPos(reader)) <= 9 && (forall i int :: old(brPos(reader)) <= i && i < brPos(reader) ==> brAt(reader, i) >= 128) && mathint(value) == kvPayload(reader, old(brPos(reader)), brPos(reader) - old(brPos(reader))) && 0 <= mathint(value) && mathint(value) < (1 << shift)
